@@ -197,11 +197,15 @@ SummaryTg(incl, ms) ==
   UNION {{[m |-> x, i |-> i, to |-> ms[x].tg[i]] : i \in 1..Len(ms[x].tg)} : x \in incl}
 UsedRids == {sc.repo[l] : l \in {"A", "B"}} \ {"-"}
 
+\* Models without file name that earlier loads left in a repository are not reported
+\* (whether they stay there is not stated anywhere); the one of this load is.
 Summary(oc, rs, cur, rl, ms, ops) ==
-  LET incl == IF oc.ok THEN {rs[cur][g] : g \in DOMAIN rs[cur]} \cup {oc.model} ELSE {} IN
+  LET shown(x) == ~(ms[x].nofile /\ x.a # Attempt)
+      incl == IF oc.ok THEN {x \in {rs[cur][g] : g \in DOMAIN rs[cur]} \cup {oc.model} : shown(x)} ELSE {} IN
   [ res    |-> [ok |-> oc.ok, kind |-> oc.kind, file |-> oc.file, line |-> oc.line, col |-> oc.col,
                 model |-> oc.model],
-    grepo  |-> UNION {{[r |-> r, f |-> g, m |-> rs[r][g]] : g \in DOMAIN rs[r]} : r \in UsedRids},
+    grepo  |-> UNION {{[r |-> r, f |-> g, m |-> rs[r][g]] : g \in {h \in DOMAIN rs[r] : shown(rs[r][h])}}
+                      : r \in UsedRids},
     incl   |-> incl,
     local  |-> {[m |-> x, fs |-> rl[x]] : x \in incl},
     opens  |-> {[f |-> g, n |-> ops[g]] : g \in {h \in DOMAIN ops : ops[h] > 0}},
@@ -461,25 +465,31 @@ ObjProcsDone ==
   /\ UNCHANGED <<sc, dev, step, fault, models, repos, repoLocal, opens, created, before, outcome, hist>>
 
 \* model processors of the main model (also on a cached model), then return.
-\* C18 demands the cleanup for this failure too; the clause
-\* NoCleanupOnModelProcessorFailure is what metamodel.internal_model_from_file did.
+\* C18 demands the cleanup for this failure too.  Clauses: NoCleanupOnModelProcessorFailure
+\* is what metamodel.internal_model_from_file did; NoCleanupOnStringModelProcessorFailure is
+\* what metamodel.model_from_str does for a model without file name.
 MainMP ==
   /\ ~Idle /\ Top.pc = "main_mp"
   /\ UNCHANGED <<sc, fault, models, repos, repoLocal, opens, created, before>>
   /\ IF MPFails(Top.m)
-     THEN LET c == "NoCleanupOnModelProcessorFailure"
+     THEN LET cs == ({"NoCleanupOnModelProcessorFailure"} \cup
+                     (IF Op.how = "str" THEN {"NoCleanupOnStringModelProcessorFailure"} ELSE {})) \cap Listed
               matters == \E r \in Rids : Purge(repos[r], created) # repos[r] IN
-          /\ \E nc \in (IF c \in Listed /\ matters THEN (IF Force THEN {TRUE} ELSE {FALSE, TRUE})
+          /\ \E nc \in (IF cs # {} /\ matters THEN (IF Force THEN {TRUE} ELSE {FALSE, TRUE})
                          ELSE {FALSE}) :
                 /\ Fail(ErrRes("modelproc", NoneFile, 0, 0, NoCul), nc)
-                /\ dev' = IF nc THEN dev \cup {c} ELSE dev
+                /\ dev' = IF nc THEN dev \cup cs ELSE dev
           /\ UNCHANGED <<step, hist>>
      ELSE Finish(OkRes(Top.m)) /\ UNCHANGED dev
 
-\* the exception handlers: no model of this attempt stays in any repository
+\* the exception handlers: no model of this attempt stays in any repository.  An entry
+\* that the attempt added for a model cached elsewhere (NestedCache) may stay or go.
+OnlyOld(rs) == [r \in DOMAIN rs |-> [g \in DOMAIN rs[r] \cap DOMAIN before[r] |-> rs[r][g]]]
 Cleanup ==
   /\ ~Idle /\ Top.pc = "cleanup"
-  /\ repos' = IF Top.nc THEN repos ELSE PurgeAll(repos, created)
+  /\ LET purged == PurgeAll(repos, created) IN
+     \E dropNew \in (IF ~Top.nc /\ OnlyOld(purged) # purged THEN {FALSE, TRUE} ELSE {FALSE}) :
+        repos' = IF Top.nc THEN repos ELSE IF dropNew THEN OnlyOld(purged) ELSE purged
   /\ UNCHANGED <<sc, dev, fault, models, repoLocal, opens, created, before>>
   /\ Finish(outcome)
 
